@@ -148,24 +148,35 @@ impl<T: Types> RaftLogState<T> {
         Ok(())
     }
 
-    pub(crate) fn update_vote(
-        &mut self,
-        vote: &T::Vote,
+    /// Check whether `rec` can be applied to this state, without modifying it.
+    ///
+    /// A record that fails this check must not be written to the WAL:
+    /// replaying it would fail and make the log impossible to re-open.
+    pub(crate) fn validate(
+        &self,
+        rec: &WALRecord<T>,
     ) -> Result<(), RaftLogStateError<T>> {
-        if Some(vote) >= self.vote.as_ref() {
-            self.vote = Some(vote.clone());
-        } else {
-            return Err(VoteReversal::new(
-                self.vote.clone().unwrap(),
-                vote.clone(),
-            )
-            .into());
+        match rec {
+            WALRecord::SaveVote(vote) => self.check_vote(vote),
+            WALRecord::Append(log_id, _payload) => self.check_append(log_id),
+            WALRecord::Commit(log_id) => self.check_commit(log_id),
+            WALRecord::TruncateAfter(_)
+            | WALRecord::PurgeUpto(_)
+            | WALRecord::State(_) => Ok(()),
         }
-        Ok(())
     }
 
-    pub(crate) fn append(
-        &mut self,
+    fn check_vote(&self, vote: &T::Vote) -> Result<(), RaftLogStateError<T>> {
+        if Some(vote) >= self.vote.as_ref() {
+            Ok(())
+        } else {
+            Err(VoteReversal::new(self.vote.clone().unwrap(), vote.clone())
+                .into())
+        }
+    }
+
+    fn check_append(
+        &self,
         log_id: &T::LogId,
     ) -> Result<(), RaftLogStateError<T>> {
         if Some(log_id) <= self.last.as_ref() {
@@ -193,12 +204,11 @@ impl<T: Types> RaftLogState<T> {
             }
         }
 
-        self.last = Some(log_id.clone());
         Ok(())
     }
 
-    pub(crate) fn commit(
-        &mut self,
+    fn check_commit(
+        &self,
         log_id: &T::LogId,
     ) -> Result<(), RaftLogStateError<T>> {
         if Some(log_id) < self.committed.as_ref() {
@@ -209,7 +219,32 @@ impl<T: Types> RaftLogState<T> {
             )
             .into());
         }
+        Ok(())
+    }
 
+    pub(crate) fn update_vote(
+        &mut self,
+        vote: &T::Vote,
+    ) -> Result<(), RaftLogStateError<T>> {
+        self.check_vote(vote)?;
+        self.vote = Some(vote.clone());
+        Ok(())
+    }
+
+    pub(crate) fn append(
+        &mut self,
+        log_id: &T::LogId,
+    ) -> Result<(), RaftLogStateError<T>> {
+        self.check_append(log_id)?;
+        self.last = Some(log_id.clone());
+        Ok(())
+    }
+
+    pub(crate) fn commit(
+        &mut self,
+        log_id: &T::LogId,
+    ) -> Result<(), RaftLogStateError<T>> {
+        self.check_commit(log_id)?;
         self.committed = Some(log_id.clone());
         Ok(())
     }
